@@ -176,6 +176,14 @@ def oracle_basic(case, rec):
     plan.cmp(net, "average_path_length", R.average_path_length(D),
          "average_path_length" + sfx)
     plan.cmp(net, "diameter", R.diameter(D), "diameter" + sfx)
+    # documented variants: unconnected graphs give N when only_connected is
+    # off; directed=False measures the undirected version
+    conn_all = bool(np.isfinite(D).all())
+    plan.cmp(net, "diameter", R.diameter(D) if conn_all else n,
+             "diameter_all_pairs" + sfx, kw={"only_connected": False})
+    DU = R.path_lengths(R.sym(A))
+    plan.cmp(net, "diameter", R.diameter(DU), "diameter_undirected" + sfx,
+             kw={"directed": False})
     plan.cmp(net, "global_efficiency", R.global_efficiency(D),
          "global_efficiency" + sfx)
     if case.get("W") is not None:
